@@ -460,9 +460,17 @@ func (p *PathRun) ensureInit(th *Thread, pkg *ssa.Package) {
 }
 
 func (p *PathRun) poisonGlobals(pkg *ssa.Package, why string, onlyUnstored bool) {
+	var touched map[*ssa.Global]bool
+	if onlyUnstored {
+		// a failed initialiser: globals it never references keep their zero value
+		touched = initTouched(pkg)
+	}
 	for _, m := range pkg.Members {
 		g, ok := m.(*ssa.Global)
 		if !ok {
+			continue
+		}
+		if touched != nil && !touched[g] {
 			continue
 		}
 		if o, ok := p.globals[g]; ok {
